@@ -224,7 +224,7 @@ func c09(p *P) {
 				if f.Parent() != nil {
 					mu = "&$^0.mu"
 				}
-				r.Check(heldAt(f, in, mu, true), "C09.R4", funcName(f)+": subscribers accessed under the write lock", p.c.InstrPos(in), "held", "subscribers map touched without the exclusive lock")
+				r.Check(p.heldAtOrByCallers(f, in, mu, true, 0), "C09.R4", funcName(f)+": subscribers accessed under the write lock", p.c.InstrPos(in), "held", "subscribers map touched without the exclusive lock")
 			}
 		}
 	}
